@@ -77,8 +77,14 @@ def must_between(fn, A, B, C, after_a=True):
         qi += 1
         if n in C:
             path = [n]
-            while parent.get(path[-1]) is not None:
-                path.append(parent[path[-1]])
+            guard = 0
+            while parent.get(path[-1]) is not None and guard < 100000:
+                p = parent[path[-1]]
+                if isinstance(p, tuple) and p and p[0] == "START":
+                    path.append(p[1])
+                    break
+                path.append(p)
+                guard += 1
             path.reverse()
             return False, path
         for m in node_succs(fn, n):
@@ -257,17 +263,17 @@ def trace_cond(fn, op, depth=0):
         if f.get("trait") in ("core::cmp::PartialEq", "core::cmp::PartialOrd"):
             base = "core::cmp::" + f["trait"].split("::")[-1] + "::" + f["item"]
         if base in CMP_CALLS:
-            return Cond("cmp", CMP_CALLS[base], s["args"][0], s["args"][1], node=(b, T))
-        return Cond("call", call=s, node=(b, T))
+            return Cond("cmp", CMP_CALLS[base], s["args"][0], s["args"][1], node=(b, "T"))
+        return Cond("call", call=s, node=(b, "T"))
     rv = s["rv"]
     if rv["k"] == "bin" and rv["op"] in CMP_OPS:
-        return Cond("cmp", CMP_OPS[rv["op"]], rv["a"], rv["b"], node=(b, S))
+        return Cond("cmp", CMP_OPS[rv["op"]], rv["a"], rv["b"], node=(b, i))
     if rv["k"] == "un" and rv["op"] == "Not":
         return trace_cond(fn, rv["a"], depth + 1).negated()
     if rv["k"] == "use":
         return trace_cond(fn, rv["a"], depth + 1)
     if rv["k"] == "discr":
-        return Cond("discr", place=rv["p"], node=(b, S))
+        return Cond("discr", place=rv["p"], node=(b, i))
     if rv["k"] == "bin" and rv["op"] in ("BitAnd", "BitOr"):
         return Cond("unknown")
     return Cond("unknown")
@@ -312,6 +318,8 @@ def guards(fn, okset=None):
             if can_ok:
                 continue
             rej_errs = [e for e in errs if e.node in r]
+            if not rej_errs:
+                continue  # e.g. the `unreachable` arm of an exhaustive match: not a reject decision
             # polarity: switch on bool: value 0 = false
             cond = c
             if t["dty"] == "bool":
